@@ -30,7 +30,6 @@ from ..estimation.debug_utils import checkThreeSigmaObservation
 from ..parallel.agent_propagation import PropagateExecutor, PropagateRegistration
 from ..parallel.estimate_prediction import EstPredictExecutor, EstPredictRegistration
 from ..parallel.estimate_update import EstUpdateExecutor, EstUpdateRegistration
-from ..physics.constants import SEC2DAYS
 from ..physics.time.stardate import JulianDate
 from .config.agent_config import AgentConfig, SensingAgentConfig
 
@@ -283,7 +282,11 @@ class Scenario:
         """Propagate the simulation forward by a single timestep."""
         prior_jd = self.current_julian_date
         prior_datetime = self.clock.datetime_epoch
-        next_jd = JulianDate(float(prior_jd) + self.clock.dt_step * SEC2DAYS)
+        # [NOTE]: Use the clock's own expression for the next epoch, so that this step's upper bound is bit-for-bit the
+        #   lower bound (`prior_jd`) of the next step. Otherwise events on a step boundary can be dropped or handled twice.
+        next_jd = (self.clock.time + self.clock.dt_step).convertToJulianDate(
+            self.clock.julian_date_start,
+        )
         handleRelevantEvents(
             self,
             self.database,
